@@ -29,6 +29,12 @@ structure Kw where
   readOnly : Bool := false
   writeOnly : Bool := false
   allowEmptyValue : Bool := false
+  /-- the `$ref` text through which this schema was reached (`SchemaRef.Ref`; "" when inline) -/
+  ref : String := ""
+  /-- `discriminator`: present?, propertyName, mapping (value ↦ `$ref` text) -/
+  hasDisc : Bool := false
+  discProp : String := ""
+  discMapping : List (String × String) := []
   deriving Inhabited
 
 inductive S where
@@ -50,6 +56,37 @@ def Kw.permits (kw : Kw) (t : String) : Bool :=
   match kw.types with | none => true | some ts => ts.contains t
 /-- `Schema.PermitsNull` -/
 def Kw.permitsNull (kw : Kw) : Bool := kw.nullable || kw.includes "null"
+
+def S.kw : S → Kw | .mk kw _ _ _ _ _ _ _ => kw
+
+/-- outcome of the discriminator pre-check of `visitXOFOperations` (only run when `oneOf` is non-empty) -/
+inductive DiscRes
+  | all                 -- no discriminator / value not an object / no mapping: every oneOf item is tried
+  | sel (ref : String)  -- only the item reached through this `$ref` is tried ("" = every item)
+  | missing             -- the object lacks the discriminator property
+  | notString (v : J)   -- its value is not a string
+  | unmapped (v : J)    -- its value is not a key of the (non-empty) mapping
+
+def discCheck (kw : Kw) (v : J) : DiscRes :=
+  if !kw.hasDisc then .all else
+  match v with
+  | .obj kvs =>
+    (match lookup kw.discProp kvs with
+     | none => .missing
+     | some (.str s) =>
+       (match lookup s kw.discMapping with
+        | some r => .sel r
+        | none => if kw.discMapping.isEmpty then .all else .unmapped (.str s))
+     | some x => .notString x)
+  | _ => .all
+
+def DiscRes.pass : DiscRes → Bool
+  | .all => true | .sel _ => true | _ => false
+/-- the `$ref` text the oneOf loop filters by ("" = no filtering) -/
+def DiscRes.ref : DiscRes → String
+  | .sel r => r | _ => ""
+/-- `discriminatorRef != "" && discriminatorRef != item.Ref` → `continue` -/
+def selOK (dr : String) (s : S) : Bool := dr == "" || s.kw.ref == dr
 
 /-- the first block of `Schema.IsEmpty`: no own keyword -/
 def Kw.bare (kw : Kw) : Bool :=
